@@ -11,8 +11,8 @@
     [read_until] (std/src/io/mod.rs): appends the bytes up to and INCLUDING the first 10, or all
     remaining bytes when there is none.  [String::from_utf8_lossy] = [Utf8Chunks] (core/src/str/lossy.rs):
     one U+FFFD per maximal invalid subpart (the lead byte and the continuation bytes accepted so far; the
-    offending byte starts the next chunk).  The terminator rule is the REPAIRED one (D14): the final '\n' is
-    removed if there is one, then a '\r' before it; the pinned tree popped the last byte unconditionally
+    offending byte starts the next chunk).  The terminator rule is the REPAIRED one (/repo 833c360): the final '\n'
+    is removed if there is one, then a '\r' before it; the pinned tree popped the last byte unconditionally
     ([strip_eol_pinned], kept for [lines_pinned_truncates]).  Definitions only. *)
 From TU Require Import Base C01_Model.
 Open Scope N_scope.
@@ -36,7 +36,7 @@ Fixpoint chunks (b : list byte) : list (list byte) :=
   end.
 
 (** * the line terminator *)
-(** repaired (D14):  if buf.last() == Some(&b'\n') { buf.pop(); if buf.last() == Some(&b'\r') { buf.pop(); } } *)
+(** repaired (/repo 833c360):  if buf.last() == Some(&b'\n') { buf.pop(); if buf.last() == Some(&b'\r') { buf.pop(); } } *)
 Definition strip_eol (c : list byte) : list byte :=
   if last c 0 =? 10 then
     let c1 := removelast c in
